@@ -66,6 +66,18 @@ def _run(prog: Program, rep: Report, tier: str) -> None:
         nf += check_opts_forwarding(rep, fwd, p)
     rep.floor('C02-D2 opts-forwarding', nf, 4)
 
+    # ---- D2d'  the public wrapper hands the caller's options on as they are (tol=0 and kmax=0 are values, not "unset")
+    sp = prog.func(SP, 'sum_product')
+    kwname = sp.node.args.kwarg.arg if sp.node.args.kwarg is not None else None
+    calls_sp = [c for c in own_nodes(sp.node) if isinstance(c, ast.Call) and callee_last(c) == 'sum_products']
+    rep.floor('C02-D2 options-forwarded', len(calls_sp), 1)
+    for c in calls_sp:
+        stars = [k.value for k in c.keywords if k.arg is None]
+        rebound = kwname is not None and any(isinstance(x, ast.Name) and x.id == kwname and isinstance(x.ctx, ast.Store) for x in own_nodes(sp.node))
+        ok = kwname is not None and len(stars) == 1 and isinstance(stars[0], ast.Name) and stars[0].id == kwname and not rebound
+        rep.ob('C02-D2 options-forwarded', sp.fq(), norm(c)[:90], sp.loc(c), ok,
+               'sum_products receives exactly the options the caller gave' if ok else
+               f"the options are filtered or rebuilt on the way (`{norm(stars[0])[:60] if stars else 'no **'}`): a value the filter drops (tol=0, kmax=0, False) silently becomes the default")
     # ---- D2e  the stopping test of the iterative solvers compares consecutive iterates with the caller's tol
     for name in ('fixed_point', 'newton'):
         g = prog.func(SP, name)
